@@ -129,6 +129,7 @@ inline Op opLock(const std::string& grp, bool lock) {
 // frame deviations; "ok" conforms to the declared shape.
 inline bool applyDev(Shape& sh, const std::string& dev) {   // returns false if the deviation is not applicable to this shape
     if (dev == "ok") return true;
+    { size_t plus = dev.find('+'); if (plus != std::string::npos) return applyDev(sh, dev.substr(0, plus)) && applyDev(sh, dev.substr(plus + 1)); }   // two deviations at once
     if (dev == "pt_missing") { if (sh.pts.empty()) return false; sh.pts.pop_back(); return true; }
     if (dev == "pt_extra") { sh.pts.push_back("Z"); return true; }
     if (dev == "pt_renamed") { if (sh.pts.empty()) return false; sh.pts.back() = "Z"; return true; }
